@@ -21,6 +21,7 @@ import TonVerif.Proofs.SrcProofCtor
 import TonVerif.Proofs.SrcLocate
 import TonVerif.Proofs.SrcLocateWalk
 import TonVerif.Proofs.SrcLocateAccounts
+import TonVerif.Proofs.SrcLocateHeader
 
 namespace TonVerif.Properties.C11
 open TonVerif TonVerif.Model TonVerif.Proofs.CellSpec TonVerif.Proofs.Prune TonVerif.Proofs.Merkle
@@ -1447,6 +1448,15 @@ pruned root, pruned edges, malformed leaves) and EVERY key: same "raises / KeyEr
 theorem c11_src_accounts_lookup (accs : PCell) (key : Nat) :
     srcAccountsLookup accs key = ((loadShardAccounts srcOpaque accs).bind (Hashmap.dictGet key)).map tcell :=
   accounts_agree accs key
+
+/-- STEP (c), first half: the `^[ overload_history underload_history total_balance total_validator_fees libraries master_ref ]` group of the
+regenerated `ShardStateUnsplit.deserialize` (`groupExpr`: the text of that block of Generated/LocateSrc.lean - skipped for a special cell, else
+2 × `load_uint(64)`, 2 × `CurrencyCollection`, `load_dict(256)`, `BlkMasterInfo if load_bit() else None` with `BlkMasterInfo` = four straight
+reads of 608 bits) returns on EVERY constructed cell exactly when the hand model's `stateRefGroup` says so. -/
+theorem c11_src_state_group (grp : PCell) (sp : Bool) (b : Bits) (r : List Tlb.Cell) :
+    (groupExpr (tcell grp)).isSome = stateRefGroup grp ∧
+    (Tlb.Src.BlkMasterInfo sp ⟨b, r⟩).isSome = decide (608 ≤ b.length) :=
+  ⟨group_isSome grp, blkMasterInfo_isSome sp b r⟩
 
 end SrcWalk
 
